@@ -55,16 +55,16 @@ SPEC = {
                   "fillNodeRec, trickle.Layout / fillTrickleRec) and proved for every byte string, chunk size k > 0 and links-per-block >= 2 (balanced; "
                   "1 for trickle; with 1 balanced.Layout provably never ends): the layouts terminate, concat of the chunks = the file, the leaves are "
                   "the chunks in order, read_back = the file, every link records the bytes below it (so a seeking reader is correct: importer_seek), "
-                  "balanced fan-out 1..maxlinks at uniform depth, blocks are handed to DAGService.Add children first and the root last; this stream "
+                  "balanced fan-out 1..maxlinks at uniform depth, the trickle layer structure (tshape; fan-out <= maxlinks + 4 (maxDepth - 1)), blocks are handed to DAGService.Add children first and the root last; this stream "
                   "meets the importer contract of the adder theorems, giving single_file_delivered_closed_and_readable(_sharded): after a successful add "
                   "exactly the importer's root is pinned, every block reachable from it was put, and a reader over the blocks that were put returns "
                   "exactly the input bytes. The importer model is compared block by block with the DAG the real importer builds (TestVerifC13Shape, code 1) "
-                  "and the observed DAG is checked against the boolean clauses (codes 30..33; closed_/shape_monitors_sound, balanced_/trickle_passes_monitors)",
+                  "and the observed DAG is checked against the boolean clauses (codes 30..33; closed_/shape_/trickle_monitors_sound, balanced_/trickle_passes_monitors)",
     "level_note": "partial: for directories (incl. HAMT sharding, MFS), for the rabin / buzhash chunkers, and for the encodings (dag-pb, UnixFS protobuf, "
                   "raw leaves, CID versions, SHA-256 and the other hashes: in the model a block is its content and the hash any collision-free function) "
                   "the importer stays an input of the model; closure of the delivered blocks, byte-for-byte read-back and root equality (sharded = "
-                  "unsharded = go-unixfs importer) are there differential tests on generated file trees, not proofs. The layer structure of the trickle "
-                  "layout (fan-out bound) is compared and monitored, not proved. Model tied to code by differential testing (generator-bounded)",
+                  "unsharded = go-unixfs importer) are there differential tests on generated file trees, not proofs. "
+                  "Model tied to code by differential testing (generator-bounded)",
     "assumptions": ["the importer stream is link-closed and contains the root (go-unixfs importer contract; proved for one file with a size-k chunker, "
                     "checked on every real-tree case otherwise)",
                     "no CID collision among the blocks of one DAG (injective_on); chunk size k > 0 (chunker.FromString rejects size-0) and "
